@@ -387,6 +387,22 @@ func (fv *FuncVerifier) startFrom(fd *funcDecl, anchor string, st *State) []ast.
 		fv.assumeTyped(st, t, v.Type())
 	}
 	fv.u.note("pragma from: verified from `%s` on, for arbitrary values of the locals declared before it; the statements before it are not covered", anchor)
+	nreq := 0
+	for _, ab := range fv.spec.AssertsBefore {
+		if !ab.FromReq {
+			continue
+		}
+		saved := fv.clauseCtx
+		fv.clauseCtx = nil
+		t := fv.evalClauseHere(ab.Clause, st, start)
+		fv.clauseCtx = saved
+		st.assume(t)
+		nreq++
+		fv.u.note("from_requires (relied on from the statements before `%s`, not verified): %s", anchor, ab.Clause.Text)
+	}
+	if nreq > 0 {
+		fv.cover(st, "from-pre", boolT(true), "the from_requires are satisfiable")
+	}
 	return fd.decl.Body.List[idx:]
 }
 
